@@ -192,4 +192,63 @@ def purge (c : Cluster) (j : Nat) : Cluster :=
   let n := getNode c j
   setNode c j { n with ks := (onPurge n.ks none).1 }
 
+/-! ### A write at a consistency level: `handle_consistency_distribution` -/
+
+/-- What the request to one selected replica has done when the deadline of the call passes. -/
+inductive Reply where
+  | ack        -- the replica's handler returned `Ok`
+  | err        -- an error came back (storage error behind a live server, connection refused)
+  | silent     -- nothing came back (wedged storage call, frozen process, black-holed connection)
+  deriving DecidableEq, Repr
+
+/-- The count arithmetic: `Ok` iff every selected replica acknowledged, otherwise the number that
+did and the number selected. -/
+def distributeAcks (acks : List Bool) : Except (Nat × Nat) Unit :=
+  if (acks.filter id).length = acks.length then .ok () else .error ((acks.filter id).length, acks.length)
+
+/-- `handle_consistency_distribution` (with the deadline of fix D18): a replica that has not
+answered when the timeout elapses counts as not having acknowledged. -/
+def distribute (rs : List Reply) : Except (Nat × Nat) Unit :=
+  distributeAcks (rs.map (fun r => r == .ack))
+
+/-- The pinned loop (`while let Some(res) = requests.next().await`): it waits for every request, so
+it returns at all only when no replica stays silent (`none` = the call never returns). -/
+def distributeLegacy (rs : List Reply) : Option (Except (Nat × Nat) Unit) :=
+  if rs.contains .silent then none else some (distribute rs)
+
+/-- Does the handler reach a storage mutation for this request?  (A refused single write returns
+`Ok` without one; the bulk handlers always make the call.) -/
+def callsStorage (c : Cluster) (t : Nat) : Issued → Bool
+  | .put d => willApply (getNode c t).ks.set d.1 d.2.1
+  | .del id ts => willApply (getNode c t).ks.set id ts
+  | .mput _ => true
+  | .mdel _ => true
+
+/-- The request reaches replica `t`, whose storage call performs the write and then never returns:
+the store has the mutation, the handler never gets to update the set or to answer. -/
+def hangAt (c : Cluster) (t : Nat) (iss : Issued) : Cluster :=
+  let before := (getNode c t).ks.set
+  let c' := (applyAt c t 0 iss).1
+  let n' := getNode c' t
+  setNode c' t { n' with ks := { set := before, store := n'.ks.store } }
+
+/-- One request of the distribution.  `down`: replicas refusing connections; `hangNext`: replicas
+whose next storage mutation hangs; `stuck`: replicas already inside a hung handler (their actor
+processes nothing further).  Returns the new `stuck` list with the reply. -/
+def replicate (c : Cluster) (down hangNext stuck : List Nat) (t : Nat) (iss : Issued) :
+    Cluster × List Nat × Reply :=
+  if down.contains t then (c, stuck, .err)
+  else if stuck.contains t then (c, stuck, .silent)
+  else if hangNext.contains t && callsStorage c t iss then (hangAt c t iss, t :: stuck, .silent)
+  else
+    let (c', ok) := applyAt c t 0 iss
+    (c', stuck, if ok then .ack else .err)
+
+/-- The requests to all selected replicas (they are independent: one per replica). -/
+def replicateAll (c : Cluster) (down hangNext stuck : List Nat) (targets : List Nat) (iss : Issued) :
+    Cluster × List Nat × List Reply :=
+  targets.foldl (fun acc t =>
+    let (c', stuck', r) := replicate acc.1 down hangNext acc.2.1 t iss
+    (c', stuck', acc.2.2 ++ [r])) (c, stuck, [])
+
 end Datacake.Cluster
